@@ -94,8 +94,11 @@ pub fn build_api(sp: &ServerPlan) -> ApiDescription<SimCtx> {
             echo::register(&mut api, true);
         }
         ApiKind::Err | ApiKind::ErrVersioned => {
+            // (the Echo endpoints are there for the framework-made errors
+            // their extractors raise)
             work::register(&mut api);
             err::register(&mut api);
+            echo::register(&mut api, false);
         }
         ApiKind::Ws => {
             work::register(&mut api);
